@@ -76,7 +76,15 @@ fn gen_body(rng: &mut Rng, depth: usize, len: usize) -> Vec<TT> {
             3..=5 => out.push(TT::P(*rng.pick(PUNCTS))),
             6 => out.push(TT::L(rng.pick(LITS).to_string())),
             7 => { out.push(TT::P('#')); out.push(TT::I(rng.pick(VARS).0.to_string())); }
-            8 => out.push(TT::P(';')),
+            8 => {
+                out.push(TT::P(';'));
+                // now and then the statement just ended is written a second time (`buf.push(0); buf.push(0);`)
+                if rng.chance(1, 4) {
+                    let start = out[..out.len() - 1].iter().rposition(|t| matches!(t, TT::P(';'))).map(|p| p + 1).unwrap_or(0);
+                    let stmt: Vec<TT> = out[start..].to_vec();
+                    if stmt.len() > 1 { out.extend(stmt); }
+                }
+            }
             _ => { let d = ['p', 'b', 'b', 'k'][rng.below(4)]; let n = rng.below(6); out.push(TT::G(d, gen_body(rng, depth + 1, n))); }
         }
     }
@@ -127,8 +135,18 @@ fn rfunction_case(rng: &mut Rng) -> Case {
     fn fix(ts: &mut Vec<TT>) { for t in ts.iter_mut() { match t { TT::I(s) if s.starts_with('v') && s.len() == 2 => *s = "t".into(), TT::G(_, inner) => fix(inner), _ => {} } } }
     fix(&mut body);
     toks.push(TT::G('b', body));
-    let env = vec![("t".to_string(), "Vec<String>".to_string()), ("nm".to_string(), "dyn_name".to_string())];
-    let rust = format!("{{ let t = quote::quote!(Vec<String>); let nm = \"dyn_name\"; let _ = (&t, &nm); let f: mir::Function<proc_macro2::TokenStream> = rfunction!( {} ); format!(\"(ok {{}})\", q(&nows(&f.to_rust_code().to_string()))) }}", src(&toks));
+    // the caller's variables carry names an implementation of the macro might use for its own bindings
+    let tv = ["t", "name", "ret", "args", "body", "ty", "vis", "f"][rng.below(8)];
+    let nmv = if tv == "name" { "nm" } else { ["nm", "name", "fn_name"][rng.below(3)] };
+    fn rename(ts: &mut Vec<TT>, tv: &str, nmv: &str) {
+        for i in 0..ts.len() {
+            if let TT::G(_, inner) = &mut ts[i] { rename(inner, tv, nmv); continue; }
+            if i > 0 && matches!(ts[i - 1], TT::P('#')) { if let TT::I(s) = &mut ts[i] { if s == "t" { *s = tv.to_string(); } else if s == "nm" { *s = nmv.to_string(); } } }
+        }
+    }
+    rename(&mut toks, tv, nmv);
+    let env = vec![(tv.to_string(), "Vec<String>".to_string()), (nmv.to_string(), "dyn_name".to_string())];
+    let rust = format!("{{ let {tv} = quote::quote!(Vec<String>); let {nmv} = \"dyn_name\"; let _ = (&{tv}, &{nmv}); let f: mir::Function<proc_macro2::TokenStream> = rfunction!( {} ); format!(\"(ok {{}})\", q(&nows(&f.to_rust_code().to_string()))) }}", src(&toks));
     Case { kind: "rfunction", model_req: format!("(rfunction (tts {}) {})", sexp(&toks), env_sexp(&env)), tokens: toks, env, rust }
 }
 
